@@ -408,6 +408,11 @@ func (c *Ctx) classifyTerm(s *termSite) {
 	fn := s.fn
 	b := s.instr.Block()
 	ce, ok := innermostCond(fn, b)
+	if !ok && c.initOnly(fn, map[*ssa.Function]bool{}, 0) {
+		// runs once, when the package is initialised, on data fixed in the source: no caller input reaches it
+		s.class, s.why = "INFEASIBLE", "the function is only called from the package initialiser (no caller input)"
+		return
+	}
 	if !ok {
 		s.class, s.why = "UNKNOWN", "unconditional in its function (reached whenever the function is entered on this path)"
 		// dispatch on an input value in the callers? classify as INPUT when the
@@ -663,4 +668,31 @@ func (c *Ctx) exportedOwners(fn *ssa.Function) []*ssa.Function {
 	}
 	sort.Slice(out, func(i, j int) bool { return name(out[i]) < name(out[j]) })
 	return out
+}
+
+// initOnly: every call of fn comes from a package initialiser (directly or
+// through functions that are themselves only called from one), and fn takes no
+// parameters that could carry caller input.
+func (c *Ctx) initOnly(fn *ssa.Function, seen map[*ssa.Function]bool, depth int) bool {
+	if depth > 4 || seen[fn] {
+		return false
+	}
+	seen[fn] = true
+	if fn.Object() != nil && fn.Object().Exported() {
+		return false
+	}
+	node := c.P.CallGraph().Nodes[fn]
+	if node == nil || len(node.In) == 0 {
+		return false
+	}
+	for _, in := range node.In {
+		caller := in.Caller.Func
+		if caller.Name() == "init" || strings.HasPrefix(caller.Name(), "init#") {
+			continue
+		}
+		if !c.P.InLib(caller) || !c.initOnly(caller, seen, depth+1) {
+			return false
+		}
+	}
+	return true
 }
